@@ -121,6 +121,15 @@ struct C16 : vr::Driver {
       if (!(back == p) || back.relativePath() != rel || back.absolutePath() != abs) return bad("child-parent-identity", std::string("getChild('") + c + "').getParent() = '" + back.relativePath() + "'");
       if (std::hash<CgroupPath>()(back) != std::hash<CgroupPath>()(p)) return bad("hash", "hash differs for equal paths");
     }
+    // a child name without any component ("", "/", "//") appends nothing
+    for (const char* c : {"", "/", "//"}) {
+      CgroupPath ch = p.getChild(c);
+      if (!(ch == p) || ch.relativePath() != rel || ch.absolutePath() != abs || ch.isRoot() != want.empty() || ch.relativePathParts() != want ||
+          std::hash<CgroupPath>()(ch) != std::hash<CgroupPath>()(p))
+        return bad("empty-child", std::string("getChild('") + c + "') -> relative '" + ch.relativePath() + "' absolute '" + ch.absolutePath() + "' (must be the path itself)");
+      CgroupPath gc = ch.getChild("k");
+      if (gc.relativePath() != (rel.empty() ? std::string("k") : rel + "/k")) return bad("empty-child", std::string("getChild('") + c + "').getChild('k') -> '" + gc.relativePath() + "'");
+    }
     // multi-component child = concatenation of canonical components
     {
       CgroupPath ch = p.getChild("x//y/");
